@@ -37,6 +37,15 @@ theorem parse_total (bytes : List Nat) : parse bytes ≠ .panic := post_np (post
 theorem parse_allocs_bounded (bytes : List Nat) : ∀ c ∈ capacities bytes, c ≤ bytes.length :=
   capacities_le bytes
 
+/-- the same requests in BYTES: with 16-byte elements (`Transition`, `LocalTimeType`, `LeapSecond` on
+a 64-bit target) the three vectors together ask for less than 3.2 times the input length
+(`5 · Σ ≤ 16 · len`; a transition costs 5 or 9 input bytes, a type record 6, a leap record 8 or 12).
+In the byte reading "not beyond the input size" holds up to this constant; in the element reading
+(`parse_allocs_bounded`) it holds exactly. -/
+theorem parse_allocs_bounded_bytes (bytes : List Nat) :
+    5 * (capacityBytes bytes).sum ≤ 16 * bytes.length :=
+  capacityBytes_le bytes
+
 /-- every text is either read as a rule or refused, with and without the RFC 8536 extensions -/
 theorem rule_total (text : List Nat) (ext : Bool) : from_tz_string text ext ≠ .panic :=
   post_np (post_from_tz_string text ext)
@@ -253,6 +262,62 @@ theorem tzif_roundtrip_v2 (f : TzFile) (hver : f.version ≠ .V1) (hs1 : BlockSh
     (h3 : checkLeaps (absBlock f.v2 rule).leaps = true) (h4 : RuleAgrees (absBlock f.v2 rule)) :
     parse (encodeTzif f) = .ok (absBlock f.v2 rule) :=
   tzif_roundtrip_v2_full' f hver hs1 hs2 hv rule hfoot h1 h2 h3 h4
+
+/-- the leap-second loop of `validate` — saturating subtraction, saturating absolute value — accepts
+exactly the tables meeting the RFC 8536 constraints in plain integer arithmetic (`LeapsOk`,
+Spec/TzValidSpec.lean: first record at a non-negative time with correction ±1; consecutive records at
+least 28 days − 1 s apart with corrections differing by exactly 1), for `i32` corrections and ANY times -/
+theorem checkLeaps_iff (ls : List LeapSecond) (hr : ∀ l ∈ ls, I32r l.corr) :
+    checkLeaps ls = true ↔ LeapsOk ls :=
+  checkLeaps_iff' ls hr
+
+/-- versions 2 and 3 with SPECIFICATION-LEVEL consistency hypotheses only: `LeapsOk` instead of the
+reader's `checkLeaps`, and `RuleAgreesSpec` — C05's specification `Spec.Zone.ruleOff` of what a rule
+prescribes at an instant — instead of `RuleAgrees` (which runs the model of the rule lookup).  The
+price is C05's scope: the rule's yearly transitions more than a day inside the calendar year
+(`TzL.RuleOk`) and the last transition within ±2^55 s. -/
+theorem tzif_roundtrip_v2_spec (f : TzFile) (hver : f.version ≠ .V1) (hs1 : BlockShape f.v1)
+    (hs2 : BlockShape f.v2) (hv : BlockVals f.version 8 f.v2) (rule : Option Rule)
+    (hfoot : FooterOk f.version f.footer rule)
+    (h1 : SortedStrict (absBlock f.v2 rule).transitions)
+    (h2 : ∀ t ∈ (absBlock f.v2 rule).transitions, t.idx < (absBlock f.v2 rule).types.length)
+    (h3 : LeapsOk (absBlock f.v2 rule).leaps)
+    (hr : Proofs.TzL.RuleOk rule)
+    (hb : ∀ last ut, (absBlock f.v2 rule).transitions.getLast? = some last →
+      leapToUnix (absBlock f.v2 rule).leaps last.time = some ut →
+      -36028797018963968 ≤ ut ∧ ut ≤ 36028797018963968)
+    (h4 : RuleAgreesSpec (absBlock f.v2 rule)) :
+    parse (encodeTzif f) = .ok (absBlock f.v2 rule) :=
+  tzif_roundtrip_v2 f hver hs1 hs2 hv rule hfoot h1 h2
+    ((checkLeaps_iff _ (abs_leaps_i32 _ _ _ rule hv.leaps)).mpr h3)
+    ((rule_agrees_spec (absBlock f.v2 rule) hr hb).mpr h4)
+
+/-- version 1 with `LeapsOk` instead of the reader's `checkLeaps` -/
+theorem tzif_roundtrip_v1_spec (f : TzFile) (hver : f.version = .V1) (hs : BlockShape f.v1)
+    (hv : BlockVals .V1 4 f.v1)
+    (h1 : SortedStrict (absBlock f.v1 none).transitions)
+    (h2 : ∀ t ∈ (absBlock f.v1 none).transitions, t.idx < (absBlock f.v1 none).types.length)
+    (h3 : LeapsOk (absBlock f.v1 none).leaps) :
+    parse (encodeTzif f) = .ok (absBlock f.v1 none) :=
+  tzif_roundtrip_v1 f hver hs hv h1 h2 ((checkLeaps_iff _ (abs_leaps_i32 _ _ _ none hv.leaps)).mpr h3)
+
+/-- non-vacuity: `sampleV1` (one leap second at 1972-07-01, correction +1) meets the hypotheses of
+`tzif_roundtrip_v1_spec`; a table whose second record comes 27 days after the first does not satisfy
+`LeapsOk` and `checkLeaps` refuses it -/
+example :
+    parse (encodeTzif sampleV1) = .ok (absBlock sampleV1.v1 none)
+      ∧ ¬ LeapsOk [⟨78796800, 1⟩, ⟨78796800 + 27 * 86400, 2⟩]
+      ∧ checkLeaps [⟨78796800, 1⟩, ⟨78796800 + 27 * 86400, 2⟩] = false := by
+  refine ⟨?_, ?_, by decide⟩
+  · exact tzif_roundtrip_v1_spec sampleV1 rfl
+      ⟨by decide, by decide, by decide, by decide, by decide, by decide, by decide, by decide⟩
+      ⟨by decide +kernel, by decide +kernel, by decide +kernel, by decide +kernel⟩
+      (show (-1000000000 : Int) < 1000000000 ∧ True from ⟨by decide, trivial⟩) (by decide)
+      ⟨⟨by decide, by decide⟩, trivial⟩
+  · intro h
+    have := h.2.1
+    revert this
+    decide
 
 /-- the earlier forms, with the reader's own `validate` as the consistency hypothesis (equivalent by
 `validate_iff`; kept because they are what the harness oracle evaluates) -/
@@ -560,6 +625,12 @@ theorem tz_rejects_samples : ∀ t ∈ badRuleTexts, from_tz_string t.1 t.2 = .e
 
 /-- malformed footers / header extremes on a concrete file are refused -/
 theorem rejects_samples : ∀ b ∈ badFiles, parse b = .err := by decide +kernel
+
+/-- non-vacuity: `sampleV2` requests room for 2 transitions, 2 types and no leap second (64 bytes)
+from a file of 157 bytes; the constant 16/5 cannot be lowered to 1 — a version-1 file of ten
+transitions has 100 + 44 + 6 + 1 bytes and asks for 160 + 16 -/
+example : capacities (encodeTzif sampleV2) = [2, 2, 0] ∧ (capacityBytes (encodeTzif sampleV2)).sum = 64
+    ∧ (encodeTzif sampleV2).length = 157 := by decide +kernel
 
 /-- non-vacuity: the readers do accept something non-trivial, and do refuse something -/
 example : (∃ z, parse (encodeTzif sampleV2) = .ok z ∧ z.transitions.length = 2 ∧ z.types.length = 2)
